@@ -365,3 +365,138 @@ Qed.
 Lemma frames_targets m K (S : list px) : rectb m = true ->
   Forall (Forall (fun e : nat * R => (fst e < length (unmasked m))%nat)) (map (@frame_at ROps m (mask_index_array m) K) S).
 Proof. intros R. apply Forall_forall. intros fr H. apply in_map_iff in H. destruct H as [p [<- _]]. now apply frame_targets. Qed.
+
+(* ================================================================== 4. convolve = conv_full of the combined image *)
+(* the native image holding v on the pixel list S, as a sum of indicators *)
+Definition ind_sum (v : list R) (S : list px) (q : px) : R :=
+  sumR (map (fun ap => if px_eqb (snd ap) q then fst ap else 0%R) (combine v S)).
+
+Lemma lookup_notin ps (v : list R) q : ~ In q ps -> @lookup ROps ps v q = 0%R.
+Proof.
+  revert v. induction ps as [|p ps IH]; intros [|a v] H; cbn [lookup]; try reflexivity.
+  destruct (px_eqb p q) eqn:E.
+  - apply px_eqb_eq in E. subst. exfalso. apply H. now left.
+  - apply IH. intros H'. apply H. now right.
+Qed.
+Lemma ind_sum_notin v S q : ~ In q S -> ind_sum v S q = 0%R.
+Proof.
+  intros H. unfold ind_sum. apply sumR_map_zero. intros [a p] Hin. cbn [fst snd].
+  apply in_combine_r in Hin. destruct (px_eqb p q) eqn:E; [|reflexivity].
+  apply px_eqb_eq in E. subst. contradiction.
+Qed.
+Lemma lookup_sum ps (v : list R) q : NoDup ps -> @lookup ROps ps v q = ind_sum v ps q.
+Proof.
+  intros N. revert v. induction N as [|p ps Hn Hd IH]; intros [|a v]; try reflexivity.
+  cbn [lookup]. unfold ind_sum. cbn [combine map sumR fst snd]. fold (ind_sum v ps q).
+  destruct (px_eqb p q) eqn:E.
+  - apply px_eqb_eq in E. subst. rewrite ind_sum_notin by assumption. lra.
+  - rewrite IH. lra.
+Qed.
+Lemma combined_sum m bm (img bimg : list R) q : (forall p, mz bm p = false -> mz m p = true) ->
+  @combined ROps m bm img bimg q = (ind_sum img (unmasked m) q + ind_sum bimg (unmasked bm) q)%R.
+Proof.
+  intros Sub. unfold combined. destruct (mz m q) eqn:E; cbn [negb].
+  - rewrite lookup_sum by apply NoDup_unmasked. rewrite (ind_sum_notin img).
+    + lra.
+    + rewrite in_unmasked. congruence.
+  - rewrite lookup_sum by apply NoDup_unmasked. rewrite (ind_sum_notin bimg).
+    + lra.
+    + rewrite in_unmasked. intros H. apply Sub in H. congruence.
+Qed.
+
+(* ---- blurring mask (contract) ---- *)
+Lemma bmask_unfold m kh kw bm : blurring_mask m kh kw = Ok bm ->
+  footprints_in m kh kw = true /\
+  bm = map (fun y => map (fun x =>
+          negb (mz m (y, x) && existsb (fun p => existsb (px_eqb (y, x)) (footprint kh kw p)) (unmasked m)))
+        (seqZ 0 (cols m))) (seqZ 0 (rows m)).
+Proof.
+  unfold blurring_mask, footprints_in. destruct (forallb _ (unmasked m)); intros H; inversion H. auto.
+Qed.
+Lemma bmask_dims m kh kw bm : blurring_mask m kh kw = Ok bm -> rows bm = rows m /\ (m <> [] -> cols bm = cols m).
+Proof.
+  intros H. apply bmask_unfold in H. destruct H as [_ ->]. split.
+  - unfold rows at 1. rewrite map_length, seqZ_length. unfold rows. lia.
+  - intros Hm. destruct m as [|r t]; [congruence|]. unfold rows. cbn [length]. rewrite seqZ_cons. cbn [map].
+    unfold cols at 1. cbn [hd]. rewrite map_length, seqZ_length. unfold cols. lia.
+Qed.
+Lemma bmask_inframe m kh kw bm q : blurring_mask m kh kw = Ok bm -> inframe bm q = inframe m q.
+Proof.
+  intros H. destruct (bmask_dims _ _ _ _ H) as [HR HC]. unfold inframe. rewrite HR.
+  destruct m as [|r t].
+  - unfold rows. cbn [length]. lia.
+  - rewrite HC by discriminate. reflexivity.
+Qed.
+Lemma bmask_all_px m kh kw bm : blurring_mask m kh kw = Ok bm -> all_px bm = all_px m.
+Proof.
+  intros H. destruct (bmask_dims _ _ _ _ H) as [HR HC]. rewrite !all_px_prod, HR.
+  destruct m as [|r t]; [reflexivity|]. now rewrite HC by discriminate.
+Qed.
+Lemma bmask_get m kh kw bm q : blurring_mask m kh kw = Ok bm -> inframe m q = true ->
+  getZ true bm q = negb (mz m q && existsb (fun p => existsb (px_eqb q) (footprint kh kw p)) (unmasked m)).
+Proof.
+  intros H F. apply bmask_unfold in H. destruct H as [_ ->]. destruct q as [y x].
+  unfold inframe in F. cbn [fst snd] in F. unfold getZ. cbn [fst snd].
+  rewrite (nth_map_seqZ _ (rows m) y) by lia. rewrite (nth_map_seqZ _ (cols m) x) by lia. reflexivity.
+Qed.
+Lemma bmask_sub m kh kw bm p : blurring_mask m kh kw = Ok bm -> mz bm p = false -> mz m p = true.
+Proof.
+  intros H Hp. apply mz_false in Hp. destruct Hp as [F G]. rewrite (bmask_inframe _ _ _ _ _ H) in F.
+  rewrite (bmask_get _ _ _ _ _ H F) in G. destruct (mz m p); [reflexivity|discriminate].
+Qed.
+Lemma blur_pixels m kh kw bm : blurring_mask m kh kw = Ok bm ->
+  filter (fun p => mz m p && negb (mz bm p)) (all_px m) = unmasked bm.
+Proof.
+  intros H. unfold unmasked. rewrite (bmask_all_px _ _ _ _ H). apply filter_ext_in. intros p _.
+  destruct (mz bm p) eqn:E; cbn [negb]; [apply andb_false_r|].
+  now rewrite (bmask_sub _ _ _ _ _ H E).
+Qed.
+
+Lemma init_ok_inv m (K : RK) c : @convolver_init ROps m K = Ok c ->
+  oddb (rows K) = true /\ oddb (cols K) = true /\
+  blurring_mask m (rows K) (cols K) = Ok (bmask c) /\
+  image_frames c = map (@frame_at ROps m (mask_index_array m) K) (unmasked m) /\
+  blurring_frames c = map (@frame_at ROps m (mask_index_array m) K) (unmasked (bmask c)) /\
+  n_image c = length (unmasked m).
+Proof.
+  intros H. unfold convolver_init in H. cbn [T ROps] in H. unfold oddb.
+  destruct ((rows K mod 2 =? 0) || (cols K mod 2 =? 0)) eqn:E; cbv beta iota in H; [discriminate H|].
+  destruct (blurring_mask m (rows K) (cols K)) as [bm|e] eqn:B; cbv beta iota zeta in H; [|discriminate H].
+  inversion H; subst c; clear H. cbn [bmask image_frames blurring_frames n_image].
+  rewrite (blur_pixels _ _ _ _ B). repeat split; try reflexivity; lia.
+Qed.
+
+Lemma conv_full_cells (N : px -> R) (K : RK) t :
+  @conv_full ROps N K t = sumR (map (fun ab => (kval K ab * N (src K t ab))%R) (kcells K)).
+Proof.
+  unfold conv_full. cbv zeta. rewrite sumT_sumR.
+  rewrite (flat_map_prod (fun a b : Z => mul ROps (getZ (@zero ROps) K (a, b)) (N (fst t + rows K / 2 - a, snd t + cols K / 2 - b)))).
+  unfold kcells. apply f_equal, map_ext. now intros [a b].
+Qed.
+
+(* one scatter loop = one indicator part of the convolution *)
+Lemma part_swap (K : RK) t (v : list R) (S : list px) :
+  sumR (map (fun ap => sumR (map (fun ij =>
+          if px_eqb (tgt K (snd ap) ij) t then (fst ap * kval K ij)%R else 0%R) (kcells K))) (combine v S))
+  = sumR (map (fun ab => (kval K ab * ind_sum v S (src K t ab))%R) (kcells K)).
+Proof.
+  rewrite (sumR_swap (fun ap ij => if px_eqb (tgt K (snd ap) ij) t then (fst ap * kval K ij)%R else 0%R)).
+  apply sumR_map_ext. intros ab _. unfold ind_sum. rewrite <- sumR_map_scal.
+  apply sumR_map_ext. intros [a p] _. cbn [fst snd]. rewrite tgt_src.
+  destruct (px_eqb p (src K t ab)); lra.
+Qed.
+
+Theorem convolve_core m (K : RK) c (img bimg : list R) k :
+  rectb m = true -> @convolver_init ROps m K = Ok c ->
+  length img = length (unmasked m) -> (k < length (unmasked m))%nat ->
+  nth k (@convolve ROps c img bimg) 0%R =
+  @conv_full ROps (@combined ROps m (bmask c) img bimg) K (nth k (unmasked m) (0, 0)).
+Proof.
+  intros R Hc Hl Hk. destruct (init_ok_inv m K c Hc) as [_ [_ [HB [HI [HBF _]]]]].
+  unfold convolve. cbn [T ROps]. rewrite HI, HBF, Hl.
+  rewrite scatter_gather_zeros.
+  2:{ apply Forall_app. split; apply entries_targets, frames_targets; exact R. }
+  rewrite hits_app, sumR_app, !entries_hits by assumption. rewrite !part_swap, <- sumR_map_add.
+  rewrite conv_full_cells. apply sumR_map_ext. intros ab _.
+  rewrite (combined_sum m (bmask c)) by (intros p; apply (bmask_sub _ _ _ _ _ HB)). lra.
+Qed.
